@@ -496,7 +496,7 @@ func runChild(mode string) (int, string) {
 var gateLevels = []int{-128, -2, -1, 0, 1, 3, 5, 6, 7, 8, 127}
 
 func runC04(c *Ctx) {
-	c.Res.Rule = "gate rows: (logger level, global level, optional BasicSampler, DisableSampling) x calls through every entry point (all 256 levels via WithLevel, the named level methods, Panic under recover, with and without Discard); history rows: every ordered pair of 14 calls (Panic() written / filtered / discarded, WithLevel(Panic/Fatal), custom levels, discarded events) back to back on one goroutine x 12 gates, each call judged whatever preceded it, and Fatal() after such a history in a child; 19 ways of obtaining a logger that filters everything (Nop(), zerolog.Ctx / log.Ctx / hlog.FromRequest of a context without logger with DefaultContextLogger unset or disabled, copies and derivations of that logger, a stored Level(Disabled) logger, Logger{}, the global log.Logger) x 2 global levels: gate row, inert grid through the pointer handed out, Fatal() in a child; exhaustive Go-side table 256x256x256; every reflected *Event method on a nil event (2 argument variants); Fatal in a child process; Level String/ParseLevel on all 256 levels and hostile strings; MarshalText/UnmarshalText/ParseLevel on all 256 levels under 22 namings of the nine named levels (upper/mixed case, renamed, rotated and swapped default names, numbers as names, empty texts, blanks, non-ASCII; also namings that give several levels one text), each installed as a replaced LevelFieldMarshalFunc and through the Level*Value variables: the level must read back when the 256 texts are pairwise different up to case, otherwise the text must read back as a level with that text; ParseLevel under each ASCII naming on its names, their case variants, the default names and numbers against Misc/LevelNames.v; the gate and inertness for 16 entry points while another goroutine alternates the global level between two values (4 logger levels x 12 ordered pairs, 4 emitting goroutines, runs prolonged until the emitters have seen the level change), judged on the events whose fate is the same under both values; the complete calls that hand the caller no event (Logger.Print / Printf / Println, Logger.Write directly, through fmt.Fprintf and through a standard library log.Logger) in every gate row and history, the rows with a BasicSampler judged call by call against an identically configured twin asked once per call that passes the levels; 12 stateful samplers (BasicSampler N = 0,1,2,3,5, BurstSampler with / without NextSampler and Period, LevelSampler over stateful samplers, every-other, fixed pattern), each wrapped in a recording sampler and as itself with a twin, x 7 (logger level, global level, writer) x DisableSampling x 43 complete calls (every entry point and finalizer, Discard, Panic() recovered, Print*, Write / io.WriteString / fmt.Fprint* on the logger as pointer and as value, log.New(logger) and log.SetOutput(logger), the package-level functions of zerolog/log) in list order and two shuffled orders: a call that passes the levels asks the sampler exactly once, with its level, and is written iff that verdict admits it, any other call does not ask it; rounds of concurrent setters (1-3 goroutines calling SetGlobalLevel, each sequence of 1-40 calls ending with the same level, against 1-2 goroutines calling DisableSampling, each sequence ending with the same value; 5 sets of levels incl. -128, 127 and Disabled, two more goroutines logging throughout): once all have returned, 14 complete calls through a logger with a rejecting and one with an every-other sampler are decided by exactly the final level and the final switch. Non-trivial gate row = has both written and filtered calls"
+	c.Res.Rule = "gate rows: (logger level, global level, optional BasicSampler, DisableSampling) x calls through every entry point (all 256 levels via WithLevel, the named level methods, Panic under recover, with and without Discard); history rows: every ordered pair of 14 calls (Panic() written / filtered / discarded, WithLevel(Panic/Fatal), custom levels, discarded events) back to back on one goroutine x 12 gates, each call judged whatever preceded it, and Fatal() after such a history in a child; 19 ways of obtaining a logger that filters everything (Nop(), zerolog.Ctx / log.Ctx / hlog.FromRequest of a context without logger with DefaultContextLogger unset or disabled, copies and derivations of that logger, a stored Level(Disabled) logger, Logger{}, the global log.Logger) x 2 global levels: gate row, inert grid through the pointer handed out, Fatal() in a child; exhaustive Go-side table 256x256x256; every reflected *Event method on a nil event (2 argument variants); Fatal in a child process; Level String/ParseLevel on all 256 levels and hostile strings; MarshalText/UnmarshalText/ParseLevel on all 256 levels under 22 namings of the nine named levels (upper/mixed case, renamed, rotated and swapped default names, numbers as names, empty texts, blanks, non-ASCII; also namings that give several levels one text), each installed as a replaced LevelFieldMarshalFunc and through the Level*Value variables: the level must read back when the 256 texts are pairwise different up to case, otherwise the text must read back as a level with that text; ParseLevel under each ASCII naming on its names, their case variants, the default names and numbers against Misc/LevelNames.v; the gate and inertness for 16 entry points while another goroutine alternates the global level between two values (4 logger levels x 12 ordered pairs, 4 emitting goroutines, runs prolonged until the emitters have seen the level change), judged on the events whose fate is the same under both values; the complete calls that hand the caller no event (Logger.Print / Printf / Println, Logger.Write directly, through fmt.Fprintf and through a standard library log.Logger) in every gate row and history, the rows with a BasicSampler judged call by call against an identically configured twin asked once per call that passes the levels; 12 stateful samplers (BasicSampler N = 0,1,2,3,5, BurstSampler with / without NextSampler and Period, LevelSampler over stateful samplers, every-other, fixed pattern), each wrapped in a recording sampler and as itself with a twin, x 7 (logger level, global level, writer) x DisableSampling x 43 complete calls (every entry point and finalizer, Discard, Panic() recovered, Print*, Write / io.WriteString / fmt.Fprint* on the logger as pointer and as value, log.New(logger) and log.SetOutput(logger), the package-level functions of zerolog/log) in list order and two shuffled orders: a call that passes the levels asks the sampler exactly once, with its level, and is written iff that verdict admits it, any other call does not ask it; rounds of concurrent setters (1-3 goroutines calling SetGlobalLevel, each sequence of 1-40 calls ending with the same level, against 1-2 goroutines calling DisableSampling, each sequence ending with the same value; 5 sets of levels incl. -128, 127 and Disabled, two more goroutines logging throughout): once all have returned, 14 complete calls through a logger with a rejecting and one with an every-other sampler are decided by exactly the final level and the final switch; filtered events under 192 settings of the package-level variables Event methods read (ErrorStackMarshaler nil / string / object marshaler, ErrorMarshalFunc, InterfaceMarshalFunc, TimestampFunc, CallerMarshalFunc, ErrorHandler, the value variables) x 11 ways of filtering (logger level, global level, rejecting sampler, Nop(), Logger{}, WithLevel(Disabled), zerolog.Ctx without logger, Logger.Err(err) / Err(nil)) x Stack() on the logger or not: the entry, every reflected Event method (2 argument variants) and 5 chained statements (Stack().Err(err).Msg ...) neither panic nor invoke a hook / callback / marshaler nor write. Non-trivial gate row = has both written and filtered calls"
 	header := "From Coq Require Import String.\nFrom Verif Require Import Base.Prelude Misc.Level Misc.LevelNames Lts.Sampler Misc.Gate Harness.C04H.\nLocal Open Scope string_scope."
 	// gate rows are long terms (hundreds of calls each): small shards, evaluated in parallel
 	openShards := func(limit int) { c.OpenShards(header, "c04_case * c04_obs", "mismatches c04_run c04_eqb", limit) }
@@ -788,4 +788,6 @@ func runC04(c *Ctx) {
 	// SetGlobalLevel / DisableSampling calls have all returned (setters.go)
 	statefulSamplerSweep(c)
 	raceGlobalSetters(c)
+	// (l) filtered events under every setting of the package-level variables Event methods read (globalscfg.go)
+	filteredUnderGlobals(c)
 }
